@@ -90,8 +90,7 @@ def main():
             ok = False
         meta["valid_seed"] = ok
         # run the checks
-        evsave = tempfile.mkdtemp(prefix="evsave-", dir="/tmp")
-        shutil.copytree(os.path.join(V, "evidence"), evsave, dirs_exist_ok=True)
+        # (runs with VERIF_REPO write their evidence to evidence-scratch/, the committed evidence is not touched)
         meta["checks"] = {}
         for cid in checks:
             t0 = time.time()
@@ -104,8 +103,6 @@ def main():
             meta["ran"].append("./check %s --tier %s against the patched tree: rc=%d, %d VIOLATION lines" % (
                 cid, tier, r.returncode, len(viol)))
             print("%s: rc=%d violations=%d  %s" % (cid, r.returncode, len(viol), fams[:2]))
-        shutil.copytree(evsave, os.path.join(V, "evidence"), dirs_exist_ok=True)
-        shutil.rmtree(evsave, True)
         meta["detected_by"] = [c for c, v in meta["checks"].items() if v["rc"] == 1 and v["violation_lines"]]
         print("valid_seed=%s detected_by=%s" % (ok, meta["detected_by"]))
         if keep and ok:
